@@ -28,7 +28,12 @@ RULE = ('Programs from the typed generator G (records, arrays incl. dynamic '
         'O0 / O1 / O2 with -g; every probe stop (at most 8 per run) x every '
         'probe expression, plus an unknown name and an out-of-range '
         'subscript at each stop, plus all expressions again after the program '
-        'has ended.  Non-trivial: at least one expression that reads a '
+        'has ended.  Plus two deterministic catalogues: every declaration '
+        'shape (scalars, 1-3-dimensional arrays of scalars and records, '
+        'nested records, dynamic arrays) x every scope (module, SHARED, '
+        'local, STATIC, parameter, function below a SUB) with all leaves '
+        'assigned and probed; and every binary operator x 8 x 8 typed '
+        'operands with boundary values.  Non-trivial: at least one expression that reads a '
         'variable, element or field was compared at a stop inside a '
         'procedure frame, or two different values of the same expression '
         'were compared in one run.  Distinct by (text, script, level).')
@@ -145,9 +150,10 @@ class PExpr:
     bare lvalue, and (for array elements) a text with a subscript far out of
     range."""
 
-    def __init__(self, txt, kind, reads, is_lv, far=None):
+    def __init__(self, txt, kind, reads, is_lv, far=None, tag=''):
         self.txt, self.kind, self.reads, self.is_lv, self.far = (
             txt, kind, reads, is_lv, far)
+        self.tag = tag      # the probe prints "@@" + tag as its first item
 
 
 def judge(prog, script, style, level, cfg):
@@ -298,10 +304,11 @@ def compare(pending, events, failures, info, seen_values):
     if not items:
         return          # the program failed while evaluating the probe
     vals = [it for it in items if it[0] == 'v']
-    if not vals or vals[0][1] != '$' or vals[0][2] != '@@':
-        return
-    vals = vals[1:]
     answers = pending['answers']
+    tag = answers[0][0].tag if answers else ''
+    if not vals or vals[0][1] != '$' or vals[0][2] != '@@' + tag:
+        return          # (another statement's output: this probe failed)
+    vals = vals[1:]
     if len(vals) != len(answers):
         return
     for (pe, ans), item in zip(answers, vals):
@@ -376,10 +383,12 @@ def check(case, cfg):
 
 def replay(obj, cfg):
     if obj.get('probes') is not None:
-        by_line = {int(k): [PExpr(t, kd, True, True, far)
-                            for t, kd, far in v]
+        by_line = {int(k): [PExpr(x[0], x[1], True, True, x[2],
+                                  x[3] if len(x) > 3 else '')
+                            for x in v]
                    for k, v in obj['probes'].items()}
-        r = judge_text(obj['text'], by_line, obj['level'], cfg, [])
+        r = judge_text(obj['text'], by_line, obj['level'], cfg, [],
+                       complete=False)
         return {'failures': r['failures']}
     prog, script, style, text = cases.decode_case(obj)
     failures, info = judge(prog, script, style, obj['level'], cfg)
@@ -563,8 +572,34 @@ def shape_program(shape, scope):
     return text, by_line
 
 
+EXPR_VARS = [('a%', '32767'), ('b&', '70000'), ('c!', '.1'), ('d#', '.1#'),
+             ('e!', '16777216'), ('f#', '16777217#'), ('g%', '-3'),
+             ('h#', '2.5#')]
+EXPR_OPS = ['+', '-', '*', '/', '\\', 'MOD', '^', '=', '<>', '<', '>', '<=',
+            '>=', 'AND', 'OR', 'XOR', 'EQV', 'IMP']
+
+
+def expr_program(op, left):
+    """One program per (operator, left operand): eight probes, one per
+    right operand, each on its own tagged line; a probe the program itself
+    cannot evaluate is skipped by ON ERROR RESUME NEXT."""
+    lines = ['ON ERROR RESUME NEXT']
+    lines += ['%s = %s' % (n, v) for n, v in EXPR_VARS]
+    by_line = {}
+    for k, (rn, _) in enumerate(EXPR_VARS):
+        tag = '%d' % k
+        txt = '%s %s %s' % (left, op, rn)
+        lines.append('PRINT "@@%s"; %s' % (tag, txt))
+        by_line[len(lines)] = [PExpr(txt, 'catalogue_expr:' + op, True, False,
+                                     None, tag)]
+    return '\n'.join(lines) + '\n', by_line
+
+
 def items(cfg):
     out = []
+    for op in EXPR_OPS:
+        for ln, _ in EXPR_VARS:
+            out.append((('expr', op, ln), 'module', 0))
     for shape in SHAPES:
         for scope in SCOPES:
             for level in (0, 2):
@@ -574,6 +609,10 @@ def items(cfg):
 
 def check_item(item, cfg):
     shape, scope, level = item
+    if shape[0] == 'expr':
+        text, by_line = expr_program(shape[1], shape[2])
+        return judge_text(text, by_line, level, cfg,
+                          ['catalogue:expr:' + shape[1]], complete=False)
     built = shape_program(tuple(shape), scope)
     cls = ['catalogue:shape:' + shape[0], 'catalogue:scope:' + scope]
     if built is None:
@@ -583,7 +622,7 @@ def check_item(item, cfg):
     return judge_text(text, by_line, level, cfg, cls)
 
 
-def judge_text(text, by_line, level, cfg, cls):
+def judge_text(text, by_line, level, cfg, cls, complete=True):
     info = {'accepted': False, 'text': text, 'compared': 0, 'in_proc': 0,
             'varying': 0, 'kinds': set()}
     failures = []
@@ -599,7 +638,7 @@ def judge_text(text, by_line, level, cfg, cls):
                     r.source_start_line in by_line and \
                     di.source_code[r.source_start_offset:
                                    r.source_end_offset].startswith(
-                                       'PRINT "@@"'):
+                                       'PRINT "@@'):
                 exprs[r.start_offset] = by_line[r.source_start_line]
         if len(exprs) != len(by_line):
             failures.append(('catalogue:probe_records_missing', {
@@ -607,12 +646,12 @@ def judge_text(text, by_line, level, cfg, cls):
         cfg2 = dict(cfg, max_hits=64)
         failures.extend(core(m.module, exprs, {}, level, cfg2, info))
         want = sum(len(v) for v in by_line.values())
-        if not failures and info['compared'] < want:
+        if complete and not failures and info['compared'] < want:
             failures.append(('catalogue:probe_not_compared', {
                 'compared': info['compared'], 'wanted': want}))
     fl = [{'bucket': b, 'detail': dict(d, level=level),
            'case': {'text': text, 'level': level,
-                    'probes': {str(k): [[pe.txt, pe.kind, pe.far]
+                    'probes': {str(k): [[pe.txt, pe.kind, pe.far, pe.tag]
                                         for pe in v]
                                for k, v in by_line.items()}}}
           for b, d in failures]
